@@ -287,6 +287,20 @@ class LazyEnum:
     def discriminant(self, m):
         raise EncoderGap('discriminant of lazily typed %s' % self.ty)
 
+    def force(self, m):
+        """decide the variant: one path per node kind that casts to this type (the kind is pinned by the path condition)"""
+        forced = getattr(m, 'lazy_forced', None)
+        if forced is None:
+            forced = m.lazy_forced = {}
+        key = (self.ty, self.node.nid)
+        if key not in forced:
+            kinds = sorted(KT.cast_variant[self.ty])
+            i = m.ctx.choose([i_eq(self.node.kind, k, 8) for k in kinds])
+            forced[key] = kinds[i]
+        k = forced[key]
+        vn = KT.cast_variant[self.ty][k]
+        return Agg(self.ty, vn, (_variant_payload(self.ty, vn, self.node),))
+
 
 @reg('SyntaxNode::cast', 'LinkedNode::cast')
 def node_cast(m, a, ci):
@@ -438,23 +452,30 @@ def _ast_node(m, v):
     return _node(m, v)
 
 
-def _first_cast(node, T):
+def _first_cast(node, T, m=None):
     s = KT.cast_set(T)
     for c in node.children:
         if not is_sym(c.kind) and c.kind in s:
             return c
         if is_sym(c.kind):
-            raise EncoderGap('typed accessor over a child with symbolic kind')
+            if m is None:
+                raise EncoderGap('typed accessor over a child with symbolic kind')
+            if m.ctx.branch(kind_in(c.kind, s)):
+                return c
     return None
 
 
-def _last_cast(node, T):
+def _last_cast(node, T, m=None):
     s = KT.cast_set(T)
     for c in reversed(node.children):
         if not is_sym(c.kind) and c.kind in s:
             return c
         if is_sym(c.kind):
-            raise EncoderGap('typed accessor over a child with symbolic kind')
+            if m is None:
+                raise EncoderGap('typed accessor over a child with symbolic kind')
+            if m.ctx.branch(kind_in(c.kind, s)):
+                return c
+            continue
     return None
 
 
@@ -471,21 +492,21 @@ def _default(T):
 @reg('ImportItemPath::name')
 def importitempath_name(m, a, ci):
     n = _ast_node(m, a[0])
-    c = _last_cast(n, 'Ident')
+    c = _last_cast(n, 'Ident', m)
     return Ast('Ident', c if c is not None else _default('Ident'))
 
 
 @reg('RenamedImportItem::new_name')
 def renamed_new_name(m, a, ci):
     n = _ast_node(m, a[0])
-    c = _last_cast(n, 'Ident')
+    c = _last_cast(n, 'Ident', m)
     return Ast('Ident', c if c is not None else _default('Ident'))
 
 
 @reg('RenamedImportItem::path')
 def renamed_path(m, a, ci):
     n = _ast_node(m, a[0])
-    c = _first_cast(n, 'ImportItemPath')
+    c = _first_cast(n, 'ImportItemPath', m)
     return Ast('ImportItemPath', c if c is not None else _default('ImportItemPath'))
 
 
@@ -528,7 +549,7 @@ def typst_is_newline(m, a, ci):
 def _acc_first(T_, default=True):
     def f(m, a, ci):
         n = _ast_node(m, a[0])
-        c = _first_cast(n, T_)
+        c = _first_cast(n, T_, m)
         if c is None:
             c = _default(T_)
         return make_cast(m, c, T_) if T_ in KT.cast_variant else Ast(T_, c)
@@ -538,7 +559,7 @@ def _acc_first(T_, default=True):
 def _acc_last(T_):
     def f(m, a, ci):
         n = _ast_node(m, a[0])
-        c = _last_cast(n, T_)
+        c = _last_cast(n, T_, m)
         if c is None:
             c = _default(T_)
         return make_cast(m, c, T_) if T_ in KT.cast_variant else Ast(T_, c)
@@ -593,7 +614,7 @@ def mathprimes_count(m, a, ci):
 @reg('Raw::block')
 def raw_block(m, a, ci):
     n = _ast_node(m, a[0])
-    d = _first_cast(n, 'RawDelim')
+    d = _first_cast(n, 'RawDelim', m)
     if d is None:
         return False
     long_delim = i_ule(3, d.text.byte_len())
@@ -739,5 +760,5 @@ def ref_target(m, a, ci):
 @reg('Ref::supplement')
 def ref_supplement(m, a, ci):
     n = _ast_node(m, a[0])
-    c = _last_cast(n, 'ContentBlock')
+    c = _last_cast(n, 'ContentBlock', m)
     return some(Ast('ContentBlock', c)) if c is not None else NONE
